@@ -70,6 +70,16 @@ def get_filesystem(path: str) -> 'FileSystem[Any]':
     raise ValueError(f'Unrecognised filesystem for "{path}"')
 
 
+def _clean_name(name: str) -> str:
+    """Convert a name to the form archive members are keyed by.
+
+    Both slashes become ``/``, case is folded, and redundant ``./`` or repeated/trailing slashes are dropped
+    like `VirtualFileSystem` and `RawFileSystem` do. The root folder is the empty string.
+    """
+    name = os.path.normpath(name.replace('\\', '/')).replace('\\', '/').casefold()
+    return '' if name == '.' else name
+
+
 class RootEscapeError(ValueError):
     """Raised when a path tries to refer to a file outside the root of a filesystem."""
     root: str
@@ -596,7 +606,7 @@ class ZipFileSystem(FileSystem[ZipInfo]):
     def walk_folder(self, folder: str = '') -> Iterator[File[Self]]:
         """Yield files in a folder."""
         # \\ is not allowed in zips.
-        folder = folder.replace('\\', '/').casefold().rstrip('/')
+        folder = _clean_name(folder)
         if folder:
             # Only match whole folder names: "materials" is not a parent of "materials2/x".
             folder += '/'
@@ -616,7 +626,7 @@ class ZipFileSystem(FileSystem[ZipInfo]):
         else:
             name = name.replace('\\', '/')
             try:
-                info = self._name_to_info[name.casefold()]
+                info = self._name_to_info[_clean_name(name)]
             except KeyError:
                 raise FileNotFoundError(f'{self.path}:{name}') from None
 
@@ -638,13 +648,13 @@ class ZipFileSystem(FileSystem[ZipInfo]):
     def _get_file(self, name: str) -> File[Self]:
         name = name.replace('\\', '/')
         try:
-            info = self._name_to_info[name.casefold()]
+            info = self._name_to_info[_clean_name(name)]
         except KeyError:
             raise FileNotFoundError(f'{self.path}:{name}') from None
         return File(self, name, info)
 
     def _file_exists(self, name: str) -> bool:
-        return name.replace('\\', '/').casefold() in self._name_to_info
+        return _clean_name(name) in self._name_to_info
 
     def _get_cache_key(self, file: File[Self]) -> int:
         """Return the CRC of the VPK file."""
@@ -666,10 +676,10 @@ class VPKFileSystem(FileSystem[VPKFile]):
         }
 
     def _file_exists(self, name: str) -> bool:
-        return name.casefold().replace('\\', '/') in self._name_to_file
+        return _clean_name(name) in self._name_to_file
 
     def _get_file(self, name: str) -> File[Self]:
-        key = name.casefold().replace('\\', '/')
+        key = _clean_name(name)
         try:
             file = self._name_to_file[key]
         except KeyError:
@@ -679,7 +689,7 @@ class VPKFileSystem(FileSystem[VPKFile]):
     def walk_folder(self, folder: str = '') -> Iterator[File[Self]]:
         """Yield files in a folder."""
         # All VPK files use forward slashes. Compare with the case-folded names like lookups do.
-        folder = folder.replace('\\', '/').casefold().rstrip('/')
+        folder = _clean_name(folder)
         if folder:
             # Only match whole folder names: "materials" is not a parent of "materials2/x".
             folder += '/'
@@ -694,7 +704,7 @@ class VPKFileSystem(FileSystem[VPKFile]):
             file = self._get_data(name)
         else:
             try:
-                file = self._name_to_file[name.casefold().replace('\\', '/')]
+                file = self._name_to_file[_clean_name(name)]
             except KeyError:
                 raise FileNotFoundError(name) from None
         return io.BytesIO(file.read())
@@ -710,7 +720,7 @@ class VPKFileSystem(FileSystem[VPKFile]):
             file = self._get_data(name)
         else:
             try:
-                file = self._name_to_file[name.casefold().replace('\\', '/')]
+                file = self._name_to_file[_clean_name(name)]
             except KeyError:
                 raise FileNotFoundError(name) from None
         # Wrap the data to treat it as bytes, then
